@@ -382,6 +382,7 @@ func (f *Frame) stdModel(in ssa.Instruction, callee *ssa.Function, cc *ssa.CallC
 		res := f.freshResults(cc, st, "ReadByte")
 		g := c.heapGet(st, ghostCanUnread, ArrSort(SInt, SBool))
 		c.setHeap(st, ghostCanUnread, c.define("ghost", Store(g, args[0][0], Eq(res[1], IntLit(0)))))
+		f.recordCall(st, cc, res, "Reader.ReadByte")
 		return res, true
 	case "(*bufio.Reader).UnreadByte":
 		res := f.freshResults(cc, st, "UnreadByte")
@@ -427,6 +428,13 @@ func (f *Frame) stdModel(in ssa.Instruction, callee *ssa.Function, cc *ssa.CallC
 			c.emit(fmt.Sprintf("(declare-fun %s (Str) Str)", fn))
 		}
 		return []Term{app(SStr, fn, args[0][0])}, true
+	case "strings.Contains":
+		c.note("assumed", "assumed contract: strings.Contains is a function of its arguments (result otherwise unconstrained)")
+		if !c.declared["ext_strcontains"] {
+			c.declared["ext_strcontains"] = true
+			c.emit("(declare-fun ext_strcontains (Str Str) Bool)")
+		}
+		return []Term{app(SBool, "ext_strcontains", args[0][0], args[1][0])}, true
 	case "strings.TrimRight", "strings.TrimLeft", "strings.Trim":
 		// deterministic functions of their two string arguments; nothing else is assumed
 		c.note("assumed", "assumed contract: "+name+" is a function of its arguments (result otherwise unconstrained)")
